@@ -30,6 +30,9 @@ META = {
 
 def run(ctx):
     repo = ctx.repo
+    from .smcloop import forwarding_rule
+    forwarding_rule(ctx, "C07.opts", ("target_efficiency", "target_efficiency_rate", "adaptive"),
+                    "the temperature search of that sampler uses the default target, not the one in force for the call")
     S = repo.cls("aspire.samples:SMCSamples")
     # ---- identities of the incremental weights
     m = S.resolve("unnormalized_log_weights")
